@@ -455,6 +455,48 @@ var rulePlainReturns = &core.Rule{ID: "R11.3", Min: 4,
 				s.Bad(key, c.Pos(r.Pos()), "return of a charset that is neither the BOM name, utf-8 under validation, nor the Latin fallback")
 			}
 		}
+		// helpers of the sniffer that answer with a charset name never say utf-8 on their own: that answer needs the
+		// validation (or the ASCII test), which sits in the sniffer
+		seenH := map[*ssa.Function]bool{f: true, p.g: true}
+		var rec func(h *ssa.Function, d int)
+		rec = func(h *ssa.Function, d int) {
+			if h == nil || h.Blocks == nil || !core.InMod(h) || seenH[h] || d > 2 || h == cm.bomFn {
+				return
+			}
+			seenH[h] = true
+			if h.Signature.Results().Len() == 1 && core.IsString(h.Signature.Results().At(0).Type()) {
+				for _, r := range core.Returns(h) {
+					vals := []ssa.Value{r.Results[0]}
+					if ph, ok := r.Results[0].(*ssa.Phi); ok {
+						vals = ph.Edges
+					}
+					for _, v := range vals {
+						if k, ok := core.ConstString(v); ok && k == "utf-8" {
+							under := false
+							for _, de := range core.DominatingConds(r.Block()) {
+								cond, val := core.StripNot(de.Cond, de.Val)
+								if call, ok := cond.(*ssa.Call); ok && val && core.CalleeIs(&call.Call, "unicode/utf8", "Valid") {
+									under = true
+								}
+								// or the ASCII test (R11.4 tabulates it), called from the helper
+								if call, ok := cond.(*ssa.Call); ok && val && p.ascii != nil && call.Call.StaticCallee() != nil && call.Call.StaticCallee() == p.ascii.Call.StaticCallee() {
+									under = true
+								}
+							}
+							s.Check(under, h.Name()+": "+returnOrdinal(r)+" utf-8", c.Pos(r.Pos()), "under utf8.Valid", "a helper of the plain sniffer answers utf-8 without UTF-8 validation: bytes that are not valid UTF-8 (for instance NEL 0x85 alone) would be reported as utf-8")
+						}
+					}
+				}
+			}
+			for _, ci := range core.Calls(h) {
+				rec(ci.Common().StaticCallee(), d+1)
+			}
+		}
+		for _, g0 := range []*ssa.Function{f, p.g} {
+			for _, ci := range core.Calls(g0) {
+				rec(ci.Common().StaticCallee(), 1)
+			}
+		}
 	}}
 
 // handWrittenUTF8: the plain sniffer (or a helper it calls) decodes runes with
